@@ -13,7 +13,9 @@ PROP_FILE = "Properties/C02.v"
 
 TRUSTED = [
     "translator/c02.py (guard lists of Readout.__init__, Readout.times / start_time setters, "
-    "ReadoutProperties.__init__; table of Detector.empty(reset); fails closed on any other shape)",
+    "ReadoutProperties.__init__, incl. the form of the start guard and the numpy-array conversion; table of "
+    "Detector.empty(reset); policy of Detector.set_readout and the wiring of its call in run_pipeline; fails closed on "
+    "any other shape)",
     "correspondence harness: harness/props/c02.py generators, harness/drivers/c02.py, probes/verif_probes_c02.py "
     "(the observing probes read private _array / _frame attributes of the containers)",
     "modelled, not verified: float64 arithmetic on the generated dyadic times is exact (checked per case in the "
@@ -128,7 +130,7 @@ def gen_valid_case(r, force=None):
     force = force or {}
     form = force.get("form") or r.choices(
         ["list", "intlist", "tuple", "scalar", "numpy_str", "file_npy", "file_txt", "ndarray"],
-        [30, 6, 8, 8, 12, 8, 8, 3])[0]
+        [30, 6, 8, 8, 12, 8, 8, 8])[0]
     c = dict(form=form, nd=force.get("nd", r.random() < 0.5), ops=[], history=force.get("history") or r.choice(HISTORIES),
              wgroup=r.choice(WGROUPS), rows=r.choice([1, 2, 3]), cols=r.choice([1, 2, 4]),
              entry=force.get("entry") or gen_entry(r), detector=r.choices(DETECTORS, [70, 10, 10, 10])[0])
@@ -154,7 +156,7 @@ def gen_valid_case(r, force=None):
     nops = force.get("nops", r.choices([0, 1, 2, 3], [55, 25, 12, 8])[0])
     for _ in range(nops):
         k = r.choices(["set_nd", "set_times", "set_start", "replace_times", "replace_start", "replace_nd"],
-                      [25, 30, 25, 12, 4, 4] if not force.get("no_bare_replace") else [25, 30, 25, 12, 0, 0])[0]
+                      [25, 30, 25, 12, 8, 8])[0]
         if k in ("set_nd", "replace_nd"):
             c["ops"].append([k, r.random() < 0.5])
         elif k in ("set_times", "replace_times"):
@@ -340,8 +342,8 @@ def gen_session(r, n_runs=None, keep=None, reuse=None, tamper_p=0.5, n=None, ent
     transition); the next run uses the same Readout object (setter calls) or a new, possibly equal-valued one.
     Returns the judged case = the last run, with the earlier runs under `pre`."""
     n_runs = n_runs or r.choice([2, 2, 2, 3, 3, 4])
-    first = gen_valid_case(r, dict(form=r.choice(["list", "list", "tuple", "file_npy", "numpy_str", "intlist"]),
-                                   nops=r.choice([0, 0, 1]), n=n, no_bare_replace=True))
+    first = gen_valid_case(r, dict(form=r.choice(["list", "list", "tuple", "file_npy", "numpy_str", "intlist", "ndarray"]),
+                                   nops=r.choice([0, 0, 1]), n=n))
     common = dict(history=first.pop("history"), rows=first.pop("rows"), cols=first.pop("cols"),
                   detector=first.pop("detector"))
     if entry:
@@ -373,7 +375,8 @@ def gen_session(r, n_runs=None, keep=None, reuse=None, tamper_p=0.5, n=None, ent
             if not kn or r.random() < 0.25:
                 c["ops"].append(["set_nd", nnd])
         else:
-            c.update(form=r.choice(["list", "list", "tuple", "file_npy"]), times=[hx(t) for t in nts], start=hx(nstart))
+            c.update(form=r.choice(["list", "list", "tuple", "file_npy", "ndarray"]), times=[hx(t) for t in nts],
+                     start=hx(nstart))
         c["tamper"] = gen_tamper(r, nts, nstart, nnd, tamper_p)
         c["plan"] = gen_plan(r, len(nts))
         runs.append(c)
@@ -910,25 +913,36 @@ def replay(ctx: Ctx, rp: dict) -> int:
 
 META = dict(
     level_text=(
-        "Coq theorems, for schedules of any length, any rational times/start, both modes, arbitrary per-step writer "
-        "programs, arbitrary prior detector contents and arbitrary sequences of Readout setter/replace operations, over "
-        "an executable model of Readout.__init__/setters/replace, ReadoutProperties.__init__, calculate_steps, "
-        "run_pipeline's loop and Detector.empty(reset): one step per time in order; the clock tuple at step i; the "
-        "telescoping sum of the steps (exported for C17); bucket state at every step start; independence from the prior "
-        "detector state; rejection of every invalid NaN-free schedule before any model runs on every path. The guard "
-        "lists of the four validation sites and the table of Detector.empty are regenerated from the source on every "
-        "run and the theorems are re-checked against them. That the Python behaves like the model is established by "
-        "correspondence (testing): real exposures through pyxel.run_mode with observing probes first/last in every step "
-        "are compared with the model, and judged against the specification, inside Coq. Two full statements are "
-        "refuted by the faithful model and kept visible: NaN times/start pass every guard; Readout(times=<ndarray>) and "
-        "Readout.replace() refuse valid schedules (known findings)."),
+        "Coq theorems, for schedules of any length, any rational or NaN times/start, both modes, arbitrary per-step "
+        "writer programs, arbitrary prior detector state (six buckets AND the ReadoutProperties object the detector "
+        "carries: sampling, start, mode, running clock), arbitrary sequences of Readout setter/replace operations, every "
+        "form of `times` (list/tuple/scalar/expression/file/numpy array) and arbitrary SESSIONS of several runs on one "
+        "detector object with arbitrary changes of the detector by the caller in between, over an executable model of "
+        "Readout.__init__/setters/replace, ReadoutProperties.__init__, Detector.set_readout, calculate_steps, "
+        "run_pipeline's loop (storing the clock into / reading it from the ReadoutProperties object) and "
+        "Detector.empty(reset): one step per time in order; the clock tuple at step i; the telescoping sum of the steps "
+        "(exported for C17); bucket state at every step start; the object-level run refines the functional run; "
+        "independence from the whole prior detector state; every run of every session equals the same run alone on a "
+        "blank detector; EVERY invalid schedule (NaN included) is rejected before any model runs on every path and leaves "
+        "the detector untouched; a caller who only installs valid schedules is never refused (numpy arrays and "
+        "replace() included). The guard lists of the four validation sites (with the form of the start guard: negative "
+        "`start >= t0` lets NaN through, positive `not start < t0` refuses it), whether the constructor converts numpy "
+        "arrays, the table of Detector.empty and the policy of Detector.set_readout (always a new ReadoutProperties "
+        "from its arguments) are regenerated from the source on every run and the theorems are re-checked against "
+        "them. That the Python behaves like the model is established by correspondence (testing): real exposures "
+        "(pyxel.run_mode, Exposure.run_exposure, the deprecated loop; CCD/CMOS/MKID/APD), single runs and sessions of 2-4 "
+        "runs on one detector object, with observing probes first/last in every step, are compared with the "
+        "object-level model started from the observed detector state, and judged against the specification, inside Coq."),
     level_note=(
         "Trusted: Coq kernel + vm_compute; translator/c02.py; the correspondence harness and probes; exactness of float "
         "arithmetic on the generated dyadic times (checked per case); numpy expression / file readers return what the "
-        "harness computes with the same numpy. Not carried: rounding of np.diff for non-dyadic times; models that "
-        "themselves tamper with the clock or call detector.empty(); 'non-zero times' is read as 'first time non-zero' "
-        "(as coded and as in DESIGN)."),
-    technique="Coq proof (induction over the time list, telescoping) over an executable model + regenerated guard/empty "
-              "tables + in-Coq correspondence/spec evaluation of real exposure runs",
+        "harness computes with the same numpy. Not carried: rounding of np.diff for non-dyadic times; infinite times; "
+        "models that themselves tamper with the clock or call detector.empty(); 'non-zero times' is read as 'first time "
+        "non-zero' (as coded and as in DESIGN). Repaired in round 2 (fix: commits): C02-F18 (numpy array as `times`, "
+        "Readout.replace) and C02-NaN (NaN passed every guard); against a tree without these repairs the full theorems "
+        "fail and the check reports the concrete failing inputs."),
+    technique="Coq proof (induction over the time list, telescoping, refinement of the object-level run, induction over "
+              "sessions) over an executable model + regenerated guard/empty/set_readout tables + in-Coq "
+              "correspondence/spec evaluation of real exposure runs and multi-run sessions",
     design_ref="DESIGN.md section 6, C02",
 )
